@@ -400,11 +400,16 @@ namespace ip {
 				boost::system::error_code(error::address_family_not_supported))));
 			return;
 		}
+		// when nothing on the route defers packets, the SYN-ACK comes back
+		// before internal_connect() returns: the handler has to be in place
+		m_connect_handler = std::move(h);
 		m_channel = m_io_service.internal_connect(this, target, ec);
 		m_mss = m_io_service.get_path_mtu(m_bound_to.address(), target.address());
 		m_cwnd = m_mss * 2;
 		if (ec)
 		{
+			h = std::move(m_connect_handler);
+			m_connect_handler = nullptr;
 			m_channel.reset();
 			// TODO: ask the policy object what the round-trip to this endpoint is
 			m_connect_timer.expires_after(chrono::milliseconds(50));
@@ -415,8 +420,6 @@ namespace ip {
 				{ h(e ? e : ec); }));
 			return;
 		}
-
-		m_connect_handler = std::move(h);
 
 		// the acceptor socket will call internal_connect_complete once the
 		// connection is established
